@@ -99,6 +99,12 @@ def coqproject_files():
         line = line.strip()
         if line.endswith(".v"):
             out.append(line)
+    import glob
+    for pat in ("Props/*.v", "gen/*.v"):
+        for f in sorted(glob.glob(os.path.join(COQ, pat))):
+            rel = os.path.relpath(f, COQ)
+            if rel not in out:
+                out.append(rel)
     return out
 
 
